@@ -298,6 +298,10 @@ func (r *e1Run) checkDAG(step, node int, why string) {
 	if !r.props["C04"] {
 		return
 	}
+	if !r.props["C03"] {
+		// reads at a commit are reads: they must leave the graph and its frontier as they were
+		r.readAtCommits(step, node)
+	}
 	nd := r.nodes[node]
 	base := nd.Store.base // raw scan below the interception layer (no sites recorded)
 	blocksKV, err := scanPrefix(nd.ctx, base, "/db/blocks/")
@@ -509,4 +513,31 @@ func shortAll(xs []string) []string {
 	}
 	sort.Strings(out)
 	return out
+}
+
+// readAtCommits issues a few time-travel reads on the node (results are C03's matter, not looked at here).
+func (r *e1Run) readAtCommits(step, node int) {
+	rr := newRng(r.p.Seed, uint64(9100+step))
+	for slot := 0; slot < r.p.cfg("docs", 1); slot++ {
+		set := r.merged[node][slot]
+		var idxs []int
+		for c := range set {
+			idxs = append(idxs, c)
+		}
+		if len(idxs) == 0 {
+			continue
+		}
+		sort.Ints(idxs)
+		for k := 0; k < 2; k++ {
+			ci := idxs[rr.IntN(len(idxs))]
+			anc := map[int]bool{}
+			r.ancestors(ci, anc)
+			if r.expect(anc).Deleted {
+				continue
+			}
+			if _, err := r.queryAt(node, slot, r.commits[ci]); err == "" {
+				r.res.Stats["reads_at_commit_before_dag_check"]++
+			}
+		}
+	}
 }
